@@ -1,10 +1,11 @@
-"""C06 -- signature changes keep calls bound to the same values (R06.1-R06.11)."""
+"""C06 -- signature changes keep calls bound to the same values (R06.1-R06.12)."""
 from __future__ import annotations
 
 import ast
 from typing import List, Optional, Set
 
 from .. import argalign
+from ..cfg import CFG
 from ..core import AnalysisError, call_name, calls_in, is_self_attr, param_names, walk_local
 from ..grammar import G, PARAM_SLOTS
 
@@ -21,6 +22,7 @@ EXPLANATION = (
     "pipeline are not decided."
     ' R06.9 (=R14.14): text handed back by the word finder is cut from the raw source, never from the blanked search text.'
 )
+EXPLANATION += ' R06.12: the positional part of a rebuilt call is cut short only when no surplus positional arguments follow.'
 EXPLANATION += ' R06.10: a `col_offset`/`end_col_offset` of an AST node (UTF-8 bytes) reaches a character offset only through codeanalyze.column_to_offset; it is otherwise only compared, or is the start column of a node tested to be a statement. R06.11: a function that remembers its answer under a key reads, in the computation of the remembered value, nothing of its parameters that the key does not contain (followed into the helpers it calls).'
 ASSUMPTIONS = ["alignment rule of the language reference as recorded in sa/grammar.py DEFAULT_ALIGNMENT",
                "a node of the analysed program = anything derived from self.ast / ast.parse(...) inside the parser classes"]
@@ -306,3 +308,32 @@ def check(ctx, res) -> None:
     from .common import memo_key_rule
 
     memo_key_rule(ctx, res, "R06.11", ("rope.refactor.change_signature", "rope.refactor.functionutils"))
+    _surplus_positionals_rule(ctx, res)
+
+
+def _surplus_positionals_rule(ctx, res) -> None:
+    """R06.12: the surplus positional arguments of a call (`self.args_arg`: those that were bound to `*args` under the OLD
+    signature) are appended after the positional arguments rebuilt for the NEW signature.  They land in `*args` again only
+    if every parameter in front of it was given a value: the loop over the new parameters may stop at a parameter without
+    a value (`break`, the rest by keyword) only when there are no surplus positionals -- the `break` stands under a test
+    that `self.args_arg` is empty."""
+    idx = ctx.idx
+    f = idx.need_func("rope.refactor.functionutils.ArgumentMapping.to_call_info")
+    cfg = CFG(f.node)
+    ext = [nd for nd in cfg.nodes if nd.kind == "stmt" and nd.ast is not None and any(
+        isinstance(c.func, ast.Attribute) and c.func.attr == "extend" and c.args and is_self_attr(c.args[0], "args_arg") for c in calls_in(nd.ast))]
+    if not ext:
+        raise AnalysisError("anchor=ArgumentMapping.to_call_info: `args.extend(self.args_arg)` not found")
+    n = 0
+    for nd in cfg.nodes:
+        if nd.kind != "stmt" or not isinstance(nd.ast, ast.Break):
+            continue
+        n += 1
+        ok = any(((not pol and is_self_attr(t, "args_arg")) or (pol and isinstance(t, ast.UnaryOp) and isinstance(t.op, ast.Not) and is_self_attr(t.operand, "args_arg")))
+                 for t, pol in cfg.guards(nd.id))
+        res.add("R06.12", f"ArgumentMapping.to_call_info|no-gap-before-surplus-positionals#{n}", ok, f"{f.unit.rel}:{nd.lineno}",
+                "the positional part is cut short only when no surplus positional arguments follow" if ok else
+                "the loop over the new parameters stops at the first one without a value and the surplus positional arguments are appended right behind: after adding "
+                "`scale=1` in front of `*rest`, the call `total(1, 2, 3)` is left as it is and 2 is bound to `scale` instead of `rest` -- the program computes another "
+                "result without any error", function=f.qualname)
+    res.floor("R06.12", "early exits of the positional loop", n, 1)
